@@ -673,6 +673,16 @@ pub mod verif_hooks {
   pub fn run_one_device_verbose(d: &mut dyn ScriptedDriver, layout: Layout, verbose: bool) -> Result<(), String> {
     do_remapping_loop_one_device(&mut Adapter { d }, layout, verbose)
   }
+  /// The unmodified RealDriver (real poll registry, readers and writer) over descriptors the harness has opened
+  /// (socket pairs and pipes instead of /dev/input nodes and /dev/uinput), run by the unmodified loop.
+  pub fn run_real_driver_on_fds(keyboard: std::os::unix::io::RawFd, virtual_keyboard: std::os::unix::io::RawFd, tablet_switch: Option<std::os::unix::io::RawFd>, layout: Layout, verbose: bool) -> Result<(), String> {
+    let mut driver = super::RealDriver { rw: super::RW {
+      r: crate::dev_input_rw::DevInputReader { fd: keyboard },
+      w: crate::dev_input_rw::DevInputWriter::verif_from_fd(virtual_keyboard),
+      t: tablet_switch.map(|fd| crate::tablet_mode_switch_reader::TabletModeSwitchReader { fd }),
+    } };
+    do_remapping_loop_one_device(&mut driver, layout, verbose)
+  }
 
   thread_local! {
     static BASE: std::time::Instant = std::time::Instant::now();
